@@ -219,6 +219,26 @@ def c19(report, rng, tier, findings):
                 case['sel'] = [ch] + [t for t in case['sel'] if t[0] == 'var'][:1]
                 case['entity'] = len(case['sel']) == 1
             report.count('chain_through_an_attribute_value')
+        elif rng.random() < 0.2:
+            # an ENTRY OF A DICT attribute (x.d[k], often None / 0 / '' / [] / ()) as a value: comparison operand, membership
+            # item, selected output
+            v0 = case['vars'][0][0]
+            X = ('var', v0)
+            ent = ('idx', ('i', rng.randint(0, 1)), ('attr', 'd', X))
+            lit_ = ('lit', rng.choice(gen.FALSY + [('n',), ('i', 1), ('i', 2)]))
+            r_ = rng.random()
+            if r_ < 0.5:
+                cmp_ = ('cmp', rng.choice(('eq', 'ne')), ent, lit_) if rng.random() < 0.7 else ('cmp', rng.choice(('eq', 'ne')), lit_, ent)
+            elif r_ < 0.8:
+                cmp_ = ('in', ent, ('lit', ('l',) + tuple(rng.sample(gen.FALSY + [('i', 1), ('i', 2)], rng.randint(0, 4)))))
+            else:
+                cmp_ = ('cmp', rng.choice(('eq', 'ne')), ent, ('attr', 'b', X))
+            g_ = gen.CondGen(rng, cfg, [v[0] for v in case['vars']])
+            case['cond'] = [rng.choice([cmp_, ('and', g_.atom(), cmp_), ('or', cmp_, g_.atom()), ('not', cmp_), g_.atom()])]
+            if rng.random() < 0.5:
+                case['sel'] = [ent] + [t for t in case['sel'] if t[0] == 'var'][:1]
+                case['entity'] = len(case['sel']) == 1
+            report.count('entry_of_a_dict_attribute')
         cases.append(case)
     report.rule = ("the generators of C01/C02 on datasets where 60% of the objects carry a falsy value (0, '', None, False, [], ()) "
                    "in the attribute used as a value and ints are drawn from 0..2: falsy values as comparison operands, membership "
@@ -711,7 +731,7 @@ def c09(report, rng, tier, findings):
         if c.get('nested_eval'):
             report.count('predicate_bodies_run_a_nested_evaluation')
     run_query_cases(report, cases, {'caching': (False, True), 'evals': 2,
-                                    'ambients': (None, 'query', 'rule', 'split:query', 'split:rule')}, judge)
+                                    'ambients': (None, 'query', 'rule', 'split:query', 'split:rule', 'query+q', 'rule+q')}, judge)
     return ['EqlModel.Props.C09', 'EqlModel.Props.C08'], [
         "the mode is read only by the patched constructors / predicate wrappers (hybrid_new, predicate.wrapper)",
         "single thread"]
@@ -901,7 +921,12 @@ def c17(report, rng, tier, findings):
     n = n_cases(tier, 300, 4000)
     cases = []
     for i in range(n):
-        objs = gen_nested_case(rng, i)
+        # 15 %: some ELEMENTS of the inner collections are containers themselves (the concatenation holds them as they
+        # are: one level is opened, not two)
+        cont_el = rng.random() < 0.15
+        if cont_el:
+            report.count('container_elements')
+        objs = gen_nested_case(rng, i, container_elements=cont_el)
         npar = len(objs)
         # outer objects whose attribute a is tested for membership
         extra = rng.randint(1, 4)
@@ -1324,6 +1349,7 @@ def c04_impl(job):
         (enable_caching if caching else disable_caching)()
         key = 'on' if caching else 'off'
         steps = []
+        held = []
         from .qcheck import CacheProbe
         probe = CacheProbe()
         probe.__enter__()
@@ -1353,7 +1379,7 @@ def c04_impl(job):
                 b.counter.raise_at = None
                 if op[0] == 'full':
                     steps.append(('full', qi, [row(sel, r) for r in q.evaluate()]))
-                elif op[0] == 'take':
+                elif op[0] in ('take', 'hold'):
                     it = q.evaluate()
                     got = []
                     try:
@@ -1361,7 +1387,10 @@ def c04_impl(job):
                             got.append(row(sel, next(it)))
                     except StopIteration:
                         pass
-                    it.close()
+                    if op[0] == 'hold':
+                        held.append(it)      # abandoned WITHOUT being closed: stays suspended to the end of the history
+                    else:
+                        it.close()
                     steps.append(('take', qi, got))
                 elif op[0] == 'raise':
                     b.counter.raise_at = b.counter.calls + op[2]
@@ -1378,6 +1407,8 @@ def c04_impl(job):
         except Exception as e:
             out['runs'][key] = {'exc': f'{type(e).__name__}: {str(e)[:200]}', 'steps': steps}
         finally:
+            for it_ in held:
+                it_.close()
             probe.__exit__()
             enable_caching()
             impl.reset_library_state()
@@ -1434,6 +1465,11 @@ def c04(report, rng, tier, findings):
             else:
                 hist.append(('raise', qi, rng.randint(1, 4)))
         hist.append(('full', rng.randrange(len(pool))))
+        # a third of the abandoned evaluations are abandoned WITHOUT closing the iterator (it stays suspended, a live
+        # reference, while the rest of the history runs); chosen by position, not by the generator's random stream
+        hist = [('hold',) + op[1:] if op[0] == 'take' and op[2] > 0 and (i + j) % 3 == 0 else op for j, op in enumerate(hist)]
+        if any(op[0] == 'hold' for op in hist):
+            report.count('abandoned_without_closing')
         case = {**base, 'pool': pool, 'hist': hist}
         cases.append(case)
     results = pmap(c04_impl, [(c, {'caching': (False, True)}) for c in cases])
@@ -1455,7 +1491,7 @@ def c04(report, rng, tier, findings):
         report.add_sample({'pool': case['pool'], 'history': case['hist'],
                            'domains': [(v[0], len(v[2])) for v in case['vars']]}, limit=3)
         kinds = [op[0] for op in case['hist']]
-        if any(k in ('take', 'raise') for k in kinds[:-1]) and any(0 < len(s_) for s_ in res['specs']):
+        if any(k in ('take', 'hold', 'raise') for k in kinds[:-1]) and any(0 < len(s_) for s_ in res['specs']):
             report.nontrivial.add(str((case['pool'], case['hist'], case['vars'], [o[2] for o in case['objs']])))
         for key, run in res['runs'].items():
             if 'exc' in run:
@@ -1488,7 +1524,9 @@ def c04(report, rng, tier, findings):
                                                         'steps': run['steps'], 'fresh_answers': res['specs']}))
                     break
     return ['EqlModel.Props.C04', 'EqlModel.Props.C07'], [
-        "single thread; two simultaneously suspended iterators of one query are outside the property's operation list",
+        "single thread; an abandoned iterator may stay suspended (never closed) while later evaluations run, but it is never RESUMED "
+        "after another evaluation of its query started (interleaved advancing of two iterators of one query is outside the "
+        "property's operation list)",
         "caching on, multi-variable queries: subject to known finding C05-F1 (attributed only when the same history is right "
         "with caching off)",
         "the per-node state (de-dup sets, caches) is modelled by its life-cycle only; that a clean state gives the fresh answer "
